@@ -114,8 +114,9 @@ def corr_optimizer(ctx, spec, batch):
     try:
         out = [canon_cmd(c, ident.get(id(c), -1), names) for c in opt.circuit]
     except ValueError as e:
-        ctx.tally("corr_skipped_unrepresentable_output")
-        ctx.notes.append(f"output outside fragment: {e}") if len(ctx.notes) < 5 else None
+        # the input is inside the model's parameter fragment, so the model predicts an output inside it
+        ctx.disagree("K1.optGrid vs optimize_circuit (output parameter outside the modelled fragment)", spec,
+                     "parameters of the form number or k*symbol", str(e))
         return prog, opt
     # an original Command object must be carried over untouched
     for c in out:
@@ -517,25 +518,25 @@ def run(ctx, sf):
             run_spec(ctx, sf, item["spec"], batch, item.get("backend"), True)
     flush_optimizer(ctx, batch)
     # merge rules: correspondence + executed law
-    corr_merge(ctx, rng, ctx.n(400, 4000))
-    for a, b in law_cases(rng, ctx.n(40, 1200)):
+    corr_merge(ctx, rng, ctx.n(500, 12000))
+    for a, b in law_cases(rng, ctx.n(60, 3000)):
         oracle_law(ctx, sf, a, b)
     # optimiser: correspondence only (all families, matrices, symbols, measured parameters)
     nmax = 5
-    for _ in range(ctx.n(500, 6000)):
+    for _ in range(ctx.n(700, 20000)):
         spec = og.gen_spec(rng, rng.randint(1, nmax), rng.randint(2, 16), flavour="any", p_sym=0.25, p_measured=0.3,
                            matrices=True)
         run_spec(ctx, sf, spec, batch)
         if len(batch) >= 1500:
             flush_optimizer(ctx, batch)
     # optimiser: correspondence + execution on the gaussian backend
-    for _ in range(ctx.n(260, 3000)):
+    for _ in range(ctx.n(400, 9000)):
         spec = og.gen_spec(rng, rng.randint(1, 4), rng.randint(2, 12), flavour="gaussian", p_sym=0.15, p_measured=0.25,
                            matrices=True, allow_complex=True)
         run_spec(ctx, sf, spec, batch, "gaussian", compiled=rng.random() < 0.6)
     flush_optimizer(ctx, batch)
     # ... and on the fock backend (non-Gaussian families, small parameters, cutoff 10 / 16)
-    for _ in range(ctx.n(40, 500)):
+    for _ in range(ctx.n(60, 1500)):
         spec = og.gen_spec(rng, rng.randint(1, 2), rng.randint(2, 8), flavour="fock", p_sym=0.1, near=False)
         run_spec(ctx, sf, spec, batch, "fock", compiled=rng.random() < 0.4)
     flush_optimizer(ctx, batch)
